@@ -151,7 +151,7 @@ CHECKS["C09"] = dict(
            "caller, registry/ledger are clean, every slot's extents agree with its live elements and owned block, nothing is outstanding beyond what the slots own, the slots can be assigned and compared, and nothing is "
            "outstanding when the pool dies. The no-fault clauses (same-extent assignment, move and swap of resizable arrays do not allocate) are decided by the plain E2 search; 'assignment through views does not allocate' by the C05 pair "
            "enumeration with a heap-allocation counter (sanitizer malloc hook) around every view = view / elements() = / fill / swap / element_moved form."),
-    jobs=lambda tier: fault_jobs(tier) + hist_jobs("C09", tier) + ranks_jobs("assignmc", "san", tier, ranks=(1, 2, 3), extra_args=["--prop=C09", "--depth=%d" % (1 if tier == "quick" else 2)], shards_thorough=1),
+    jobs=lambda tier: fault_jobs(tier) + hist_jobs("C09", tier) + alloc_jobs("C09", tier, combos=[(0, 0, 0, 0), (0, 1, 1, 0)]) + ranks_jobs("assignmc", "san", tier, ranks=(1, 2, 3), extra_args=["--prop=C09", "--depth=%d" % (1 if tier == "quick" else 2)], shards_thorough=1),
     rule=HIST_RULE + " Fault mode: for each explored transition (history h, op o) with N fault opportunities inside o, the N runs 'replay h unarmed, run o with opportunity k armed' are all executed. evaluations = fault placements "
          "executed; distinct_nontrivial = placements whose fault was actually reached and thrown. Violation key = element kind | operation class | fault kind {alloc, elem-ctor, elem-assign} | symptom.",
     assumptions=HIST_ASSUME[:1] + ["element move operations may throw in this build (INSTR_THROWING_MOVE) so that every element operation is a fault site", "a child killed by std::terminate is the observation 'terminate'", "g++ 12 -O0 ASan+UBSan"],
